@@ -876,6 +876,10 @@ pub fn run(run: &'static Run) {
         let st = run_scenario(run, &sc, 400_000);
         run.set(&format!("engine_scenario:{}", sc.name), json!({"depth_bound_completed": st.depth_completed, "unique_states": st.states, "transitions": st.transitions}));
     }
+    // reserves, deposits and swaps beyond 64 bits (products beyond 128 bits in the peg and in the pro-rata shares)
+    crate::props::c15::huge_amounts(run, false);
+    crate::props::c16::huge_liquidity(run, false);
+    crate::props::c16::lopsided_huge_pool(run);
     child_cases(run, thorough);
     confirm_garbage(run);
     run.sample(json!({"hostile": "swap[MEL/SYM:canonical] 0 of Mel", "calls": ["apply_tx_batch alone / before / after a normal transfer", "seal(None)", "seal(Some(-128))", "seal(Some(127))", "next block", "apply_block"], "oracle": "every call returns (Ok or Err) without panic, overflow, abort or exceeding the watchdog"}));
